@@ -101,20 +101,68 @@ static void print_wake_call(Setup& S)
     printf("\n");
 }
 
+// One step of a call history on the object (strengthening st3weak, seeds C06-I/J, C07-I): a string of operations,
+// executed in order.  Lower case runs BEFORE the profiles of the step are put into the phase space (i.e. on the
+// profiles of the step before), upper case after:
+//   W/-  nothing            P/p  padBunchProfiles()            C/c  updateCSR(0)
+//   Z    *impedance += (zre, zim)   (the N+N values follow the profiles of the step, one set per Z, in order):
+//        the field holds the impedance through a shared pointer, the object behind it may change between calls
+static size_t count_z(const std::string& ops)
+{
+    size_t k = 0;
+    for (char o : ops) if (o == 'Z' || o == 'z') k++;
+    return k;
+}
+
+static std::vector<std::vector<impedance_t>> read_zs(const Setup& S, const std::string& ops)
+{
+    std::vector<std::vector<impedance_t>> zs(count_z(ops), std::vector<impedance_t>(S.N));
+    for (auto& z : zs) {
+        std::vector<float> re(S.N), im(S.N);
+        for (auto& v : re) v = nextf();
+        for (auto& v : im) v = nextf();
+        for (unsigned i = 0; i < S.N; i++) z[i] = impedance_t(re[i], im[i]);
+    }
+    return zs;
+}
+
+static void run_ops(Setup& S, const std::string& ops, bool upper, const std::vector<std::vector<impedance_t>>& zs)
+{
+    size_t iz = 0;
+    for (char o : ops) {
+        const bool up = (o >= 'A' && o <= 'Z');
+        if (o == 'Z' || o == 'z') {
+            if (upper) { Impedance dz(zs[iz], 1e12f); *S.z += dz; }
+            iz++;
+            continue;
+        }
+        if (up != upper) continue;
+        switch (o) {
+        case 'P': case 'p': S.f->padBunchProfiles(); break;
+        case 'C': case 'c': S.f->updateCSR(0); break;
+        default: break;
+        }
+    }
+}
+
 static void do_wakeseq()
 {
     std::vector<float> prof;
     Setup S = read_setup(prof);
     long nmore = nextl();
+    std::string ops0 = next();          // what is called on the fresh object before its first wakePotential()
+    auto zs0 = read_zs(S, ops0);
     print_inputs(S);
+    run_ops(S, ops0, true, zs0);
     print_wake_call(S);
     for (long k = 0; k < nmore; k++) {
-        char between = next()[0];       // W: nothing; C: updateCSR(0) with the new profiles first; P: padBunchProfiles() first
+        std::string ops = next();
         std::vector<float> q((size_t)S.nb * S.n);
         for (auto& v : q) v = nextf();
+        auto zs = read_zs(S, ops);
+        run_ops(S, ops, false, zs);
         set_profiles(S, q);
-        if (between == 'C') S.f->updateCSR(0);
-        else if (between == 'P') S.f->padBunchProfiles();
+        run_ops(S, ops, true, zs);
         print_wake_call(S);
     }
     printf("end\n");
@@ -129,9 +177,18 @@ static void do_csr()
     // <nwarm> nwarm x profile(n): earlier wakePotential() calls with OTHER profiles on the object that later gives the
     // wake for the Parseval oracle (a wake that is only right on a fresh object is not the wake the beam sees)
     long nwarm = nextl();
+    // <same>: 0 - the wake for the Parseval oracle comes from a second object of the same set-up (never used for updateCSR);
+    //         1 - it comes from the SAME object, asked right after updateCSR() (order csr -> wake on one field: the two
+    //             share _bp_padded/_formfactor; strengthening st3weak, seed C07-I).  The earlier wakePotential() calls
+    //             with other profiles then happen on that object BEFORE updateCSR().
+    long same = nextl();
     std::vector<std::vector<float>> warm(nwarm, std::vector<float>((size_t)S.nb * S.n));
     for (auto& q : warm) for (auto& v : q) v = nextf();
     print_inputs(S);
+    if (same) {
+        for (auto& q : warm) { set_profiles(S, q); S.f->wakePotential(); }
+        set_profiles(S, prof);
+    }
     S.f->updateCSR(cutoff);
     printf("renorm"); pf(S.f->_formfactorrenorm); printf("\n");
     printf("df"); pf(S.f->getFreqRuler()->delta()); pf(S.f->getFreqRuler()->scale("Hertz")); printf("\n");
@@ -144,11 +201,13 @@ static void do_csr()
     // the wake of the same object afterwards is NOT taken here (stale padded buffer, C18);
     // a fresh object gives the wake for the Parseval oracle
     std::vector<float> prof2 = prof;
-    S.f.reset();
-    S.f = std::make_shared<ElectricField>(S.ps, S.z, S.buckets, S.s, nullptr, S.frev,
-                                          (meshaxis_t)S.revpart, S.Ib, S.E0, S.sd, S.dt);
-    for (auto& q : warm) { set_profiles(S, q); S.f->wakePotential(); }
-    set_profiles(S, prof2);
+    if (!same) {
+        S.f.reset();
+        S.f = std::make_shared<ElectricField>(S.ps, S.z, S.buckets, S.s, nullptr, S.frev,
+                                              (meshaxis_t)S.revpart, S.Ib, S.E0, S.sd, S.dt);
+        for (auto& q : warm) { set_profiles(S, q); S.f->wakePotential(); }
+        set_profiles(S, prof2);
+    }
     const meshaxis_t* w = S.f->wakePotential();
     printf("\nwakepad");
     for (unsigned i = 0; i < S.N; i++) pf(S.f->getPaddedWakePotential()[i]);
